@@ -15,22 +15,25 @@ BASES = [
     ["const K = 5, L = K + 2;", "register xY { v : 16 = L; }", "x_v = Y_v + K;", "pc = 0;", "mem_addr = 0x40;", "mem_writebit = 1;", "mem_readbit = 0;",
      "mem_input = (0b000000000000000000000000000000000000000000000000 .. Y_v) + 1;", "Stat = [ Y_v > 20 : STAT_HLT; 1 : STAT_AOK ];"],
 ]
-COMMENTS = ["# a comment", "// another one; with = signs", "#", "//", "# café", "/* block */", "/* a = 1; */"]
+COMMENTS = [b"# a comment", b"// another one; with = signs", b"#", b"//", "# caf\u00e9".encode(), b"/* block */", b"/* a = 1; */",
+            b"# caf\xe9 (Latin-1)", b"// \xff\xfe not UTF-8 at all", b"/** doc **/", b"/**/", b"/* ** */", b"/***/"]
 
 
 def render(rnd, stmts, eol, decorate):
     out = []
+    eol = eol.encode()
     for st in stmts:
+        st = st.encode()
         if decorate:
             r = rnd.random()
             if r < 0.35:
                 out.append(rnd.choice(COMMENTS))
             elif r < 0.5:
-                out.append(rnd.choice(["", "   ", "\t"]))
+                out.append(rnd.choice([b"", b"   ", b"\t"]))
             elif r < 0.6:
-                st = st + " " + rnd.choice(COMMENTS[:5])
+                st = st + b" " + rnd.choice([c for c in COMMENTS if c[:2] != b"/*"])
             elif r < 0.7:
-                st = "/* c */ " + st.replace(" = ", " =\t", 1)
+                st = rnd.choice([c for c in COMMENTS if c[:2] == b"/*"]) + b" " + st.replace(b" = ", b" =\t", 1)
         out.append(st)
     text = eol.join(out)
     if rnd.random() < 0.7:
@@ -45,7 +48,7 @@ def generate(binary, seed, count, outfile, workdir):
     open(os.path.join(workdir, "h.yo"), "w").write("0x000: 30f40001000000000000 |   irmovq $256, %rsp\n0x00a: 00                   |   halt\n")
 
     def run(text):
-        open(os.path.join(workdir, "f.hcl"), "wb").write(text.encode("utf-8"))
+        open(os.path.join(workdir, "f.hcl"), "wb").write(text if isinstance(text, bytes) else text.encode("utf-8"))
         try:
             p = subprocess.run([binary, "-q", "f.hcl", "h.yo", "12"], cwd=workdir, stdin=subprocess.DEVNULL, stdout=subprocess.PIPE,
                                stderr=subprocess.PIPE, timeout=60)
@@ -68,4 +71,4 @@ def generate(binary, seed, count, outfile, workdir):
             else:
                 impl = "DIFF rc=%d instead of %d; stderr: %s" % (rc, brc, err.strip().replace("\n", " | ")[:200])
             name = {"\n": "lf", "\r\n": "crlf", "\r": "cr", "\n\n": "lflf", "\r\r": "crcr"}[eol]
-            f.write("(layout (base %d) (eol %s) (decorated %d) (hex %s))\t%s\n" % (k, name, 1 if decorate else 0, text.encode("utf-8").hex(), impl))
+            f.write("(layout (base %d) (eol %s) (decorated %d) (hex %s))\t%s\n" % (k, name, 1 if decorate else 0, text.hex(), impl))
